@@ -88,6 +88,25 @@ def gmat(rng, quick):
     n = 1100
     lam = np.concatenate([np.ones(60), np.full(60, 1 - 1.1e-3), rng.uniform(0, 0.95, size=n - 120)])
     yield f"dense-large[n={n},gap=1.1e-3]", with_spectrum(rng, lam)
+    if not quick:
+        # one connected dense block of more than 4096 rows (beyond any size switch of the dense eigen-solve), plus three 1x1 unit blocks and
+        # two zero rows: an orthogonal projector V V^T of rank 43 + 3 whose unit eigenspace is known by construction (KNOWN_UNIT)
+        nb_, r_ = 4200, 43
+        V_, _r = np.linalg.qr(rng.normal(size=(nb_, r_)))
+        M_ = np.zeros((nb_ + 5, nb_ + 5))
+        M_[:nb_, :nb_] = V_ @ V_.T
+        for k_ in range(3):
+            M_[nb_ + k_, nb_ + k_] = 1.0
+        W_ = np.zeros((nb_ + 5, r_ + 3))
+        W_[:nb_, :r_] = V_
+        for k_ in range(3):
+            W_[nb_ + k_, r_ + k_] = 1.0
+        kind_ = f"dense-huge[n={nb_ + 5},rank={r_ + 3}]"
+        KNOWN_UNIT[kind_] = W_
+        yield kind_, (M_ + M_.T) / 2
+
+
+KNOWN_UNIT = {}
 
 
 def unit_projector(M):
@@ -96,10 +115,15 @@ def unit_projector(M):
     return V1 @ V1.T, V1.shape[1]
 
 
-def judge(E, M):
-    """returns (ok, message) comparing returned columns with the dense reference unit eigenspace"""
+def judge(E, M, kind=None):
+    """returns (ok, message) comparing returned columns with the dense reference unit eigenspace (known by construction for the
+    matrices listed in KNOWN_UNIT, computed by a dense eigen-decomposition otherwise)"""
     n = M.shape[0]
-    Pi, r = unit_projector(M)
+    if kind in KNOWN_UNIT:
+        W = KNOWN_UNIT[kind]
+        Pi, r = W @ W.T, W.shape[1]
+    else:
+        Pi, r = unit_projector(M)
     if E is None:
         E = np.zeros((n, 0))
     if sp.issparse(E):
